@@ -324,19 +324,19 @@ func (s *Lexer) readString() (Token, error) {
 		}
 		switch r {
 		default:
-			char := rune(r)
 			w := 1
 
 			// skip unicode overhead if we are in the ascii range
 			if r >= 127 {
-				char, w = utf8.DecodeRuneInString(s.Input[s.end:])
+				_, w = utf8.DecodeRuneInString(s.Input[s.end:])
+			}
+			if buf != nil {
+				// the bytes as they are written, as in a string without escape sequences
+				// (re-encoding the rune would turn ill-formed UTF-8 into U+FFFD)
+				buf.WriteString(s.Input[s.end : s.end+w])
 			}
 			s.end += w
 			s.endRunes++
-
-			if buf != nil {
-				buf.WriteRune(char)
-			}
 
 		case '"':
 			t, err := s.makeToken(String)
